@@ -204,18 +204,25 @@ func c18Gen(t *rapid.T) C18Case {
 		pool := []string{"container", "tier", "env", "msg"}
 		// Half of the time every level names one common label.
 		common := ""
-		if rapid.Bool().Draw(t, "gn-common") {
+		if rapid.IntRange(0, 2).Draw(t, "gn-common") != 0 {
 			common = rapid.SampledFrom(pool).Draw(t, "gn-common-label")
 		}
 		grouping := func(label string) string {
+			// A "without" clause names many labels (so that its groups really merge series of
+			// different containers and lines), a "by" clause few.
+			without := rapid.Bool().Draw(t, label+"-without")
 			var ls []string
 			for _, l := range pool {
-				if l == common || rapid.IntRange(0, 2).Draw(t, label+"-"+l) == 0 {
+				p := 2
+				if without {
+					p = 1
+				}
+				if l == common || rapid.IntRange(0, p).Draw(t, label+"-"+l) == 0 {
 					ls = append(ls, l)
 				}
 			}
 			kw := "by"
-			if rapid.Bool().Draw(t, label+"-without") {
+			if without {
 				kw = "without"
 				ls = append(ls, rapid.SampledFrom([]string{"container_id", "container_name", "msg"}).Draw(t, label+"-wo-extra"))
 			}
